@@ -53,7 +53,17 @@ def handle (j : Json) : Except String Json := do
     | .error .integrationFailure => .arr #[.str "error", .str "IntegrationFailure"]
     | .error .other => .arr #[.str "error", .str "other"]
   let rowJ : Json := match row with | some y => ratsJ y | none => .null
-  pure (Json.mkObj [("loop", outJ), ("result", resJ), ("row", rowJ),
+  -- the class predicates of the policy findings F-C15-4 / F-C15-2, as the theorems state them (accumulation requests only)
+  let boundaryJ : Json := match fieldD j "acc" .null with
+    | .null => .null
+    | _ =>
+      let relJ : Json := match d, y0 with
+        | [d1], [y1] => if 0 < d1 ∧ 0 < y1 then .bool (accRelFails tol d1 y1 maxSteps) else .null
+        | _, _ =>
+          if d.length == y0.length && d.all (fun x => decide (0 < x)) && y0.all (fun x => decide (0 < x))
+          then .bool (accRelVecFails tol d y0 maxSteps) else .null
+      Json.mkObj [("abs_fails", .bool (accAbsFails tol d)), ("rel_fails", relJ)]
+  pure (Json.mkObj [("loop", outJ), ("result", resJ), ("row", rowJ), ("boundary", boundaryJ),
     ("integ", Json.mkObj [("t0", ratJ sim.integ.t0), ("y0", ratsJ sim.integ.y0)])])
 
 end Driver.H_c15
